@@ -26,7 +26,9 @@ func init() {
 		c := c
 		vrt.Register(&vrt.Scenario{
 			Name:  c.name,
-			Props: []string{"C05", "C11", "C12"},
+			Props: []string{"C05", "C11:race", "C12:goroutine-leak"},
+			Quick: 3, Thorough: 4,
+			Desc:  "waiter in WaitCond vs broadcaster / canceller threads (sync.go)",
 			Run:   func() { wcRun(c.bcast, c.cancel, c.nilCtx, c.predTrue) },
 			Check: wcCheck,
 		})
